@@ -1,6 +1,7 @@
 package smt
 
 import (
+	"sync"
 	"bufio"
 	"fmt"
 	"io"
@@ -44,6 +45,10 @@ type Solver struct {
 	Time      time.Duration
 	MaxTime   time.Duration
 	timeoutMs int
+	spec      SolverSpec
+	Killed    int // queries ended by the watchdog (counted as unknown)
+	Retries   int // unknown answers asked again with a longer limit
+	lastKilled, lastErr bool
 	usePush   bool // cvc5: emulate check-sat-assuming via push/pop (also fine)
 	lastSatPushed bool // a cvc5 scope left open for get-value
 }
@@ -55,32 +60,7 @@ type SolverSpec struct {
 }
 
 func NewSolver(tb *Table, spec SolverSpec) (*Solver, error) {
-	var cmd *exec.Cmd
-	switch spec.Name {
-	case "", "z3":
-		cmd = exec.Command("z3", "-in", "-smt2")
-	case "z3-new":
-		cmd = exec.Command("z3-new", "-in", "-smt2")
-	case "cvc5":
-		cmd = exec.Command("cvc5", "--incremental", "--lang=smt2", "--produce-models", fmt.Sprintf("--tlimit-per=%d", spec.TimeoutMs))
-	default:
-		return nil, fmt.Errorf("unknown solver %q", spec.Name)
-	}
-	in, err := cmd.StdinPipe()
-	if err != nil {
-		return nil, err
-	}
-	outp, err := cmd.StdoutPipe()
-	if err != nil {
-		return nil, err
-	}
-	cmd.Stderr = os.Stderr
-	if err := cmd.Start(); err != nil {
-		return nil, err
-	}
-	s := &Solver{Name: spec.Name, tb: tb, cmd: cmd, in: in, out: bufio.NewReaderSize(outp, 1<<20),
-		emitted: map[int]bool{}, ufDecl: map[string]bool{}, symDecl: map[string]bool{}, cache: map[string]Result{},
-		timeoutMs: spec.TimeoutMs}
+	s := &Solver{Name: spec.Name, tb: tb, cache: map[string]Result{}, timeoutMs: spec.TimeoutMs, spec: spec}
 	if s.Name == "" {
 		s.Name = "z3"
 	}
@@ -90,6 +70,41 @@ func NewSolver(tb *Table, spec SolverSpec) (*Solver, error) {
 			s.log = f
 		}
 	}
+	if err := s.start(); err != nil {
+		return nil, err
+	}
+	return s, nil
+}
+
+// start launches the solver process with nothing defined.
+func (s *Solver) start() error {
+	spec := s.spec
+	var cmd *exec.Cmd
+	switch spec.Name {
+	case "", "z3":
+		cmd = exec.Command("z3", "-in", "-smt2")
+	case "z3-new":
+		cmd = exec.Command("z3-new", "-in", "-smt2")
+	case "cvc5":
+		cmd = exec.Command("cvc5", "--incremental", "--lang=smt2", "--produce-models", fmt.Sprintf("--tlimit-per=%d", spec.TimeoutMs))
+	default:
+		return fmt.Errorf("unknown solver %q", spec.Name)
+	}
+	in, err := cmd.StdinPipe()
+	if err != nil {
+		return err
+	}
+	outp, err := cmd.StdoutPipe()
+	if err != nil {
+		return err
+	}
+	cmd.Stderr = os.Stderr
+	if err := cmd.Start(); err != nil {
+		return err
+	}
+	s.cmd, s.in, s.out = cmd, in, bufio.NewReaderSize(outp, 1<<20)
+	s.emitted, s.ufDecl, s.symDecl = map[int]bool{}, map[string]bool{}, map[string]bool{}
+	s.lastSatPushed = false
 	if s.Name == "cvc5" {
 		s.usePush = true
 		s.send("(set-logic ALL)\n")
@@ -99,7 +114,40 @@ func NewSolver(tb *Table, spec SolverSpec) (*Solver, error) {
 			s.send(fmt.Sprintf("(set-option :timeout %d)\n", spec.TimeoutMs))
 		}
 	}
-	return s, nil
+	return nil
+}
+
+// watchdog kills the solver process when it does not answer within its own
+// time limit plus a margin (z3 4.8 does not always honour :timeout). The
+// returned function disarms it and reports whether it fired; after it fired
+// the process has been replaced by a fresh one.
+func (s *Solver) watchdog() func() bool {
+	if s.timeoutMs <= 0 {
+		return func() bool { return false }
+	}
+	var mu sync.Mutex
+	fired := false
+	cmd := s.cmd
+	t := time.AfterFunc(time.Duration(s.timeoutMs)*time.Millisecond*3/2+5*time.Second, func() {
+		mu.Lock()
+		fired = true
+		mu.Unlock()
+		cmd.Process.Kill()
+	})
+	return func() bool {
+		t.Stop()
+		mu.Lock()
+		f := fired
+		mu.Unlock()
+		if f {
+			cmd.Wait()
+			s.Killed++
+			if err := s.start(); err != nil {
+				s.Errors = append(s.Errors, "cannot restart solver: "+err.Error())
+			}
+		}
+		return f
+	}
 }
 
 func (s *Solver) Close() {
@@ -266,7 +314,27 @@ func (s *Solver) Check(as []*Term) Result {
 	return r
 }
 
+// checkNoCache asks the solver; an "unknown" (time limit) answer is asked again
+// once with three times the limit before it is reported.
 func (s *Solver) checkNoCache(lits []*Term) Result {
+	r := s.checkOnce(lits)
+	if r != Unknown || s.timeoutMs <= 0 || s.Name == "cvc5" || s.lastKilled || s.lastErr {
+		return r
+	}
+	s.Retries++
+	base := s.timeoutMs
+	s.timeoutMs = 3 * base
+	s.send(fmt.Sprintf("(set-option :timeout %d)\n", s.timeoutMs))
+	r = s.checkOnce(lits)
+	s.timeoutMs = base
+	if !s.lastKilled {
+		s.send(fmt.Sprintf("(set-option :timeout %d)\n", base))
+	}
+	s.Unknowns-- // the first attempt is not a verdict
+	return r
+}
+
+func (s *Solver) checkOnce(lits []*Term) Result {
 	var sb strings.Builder
 	for _, a := range lits {
 		s.define(a, &sb)
@@ -290,13 +358,17 @@ func (s *Solver) checkNoCache(lits []*Term) Result {
 		sb.WriteString("))\n")
 	}
 	start := time.Now()
+	disarm := s.watchdog()
 	s.send(sb.String())
 	res := Unknown
 	hadErr := false
+	killed := false
 	for {
 		line, err := s.readLine()
 		if err != nil {
-			s.Errors = append(s.Errors, "solver pipe: "+err.Error())
+			if killed = disarm(); !killed {
+				s.Errors = append(s.Errors, "solver pipe: "+err.Error())
+			}
 			hadErr = true
 			break
 		}
@@ -324,6 +396,11 @@ func (s *Solver) checkNoCache(lits []*Term) Result {
 		}
 		break
 	}
+	if !killed {
+		if disarm() {
+			killed, hadErr = true, true
+		}
+	}
 	if hadErr {
 		res = Unknown
 	}
@@ -335,6 +412,10 @@ func (s *Solver) checkNoCache(lits []*Term) Result {
 	s.Queries++
 	if res == Unknown {
 		s.Unknowns++
+	}
+	s.lastKilled, s.lastErr = killed, hadErr && !killed
+	if killed {
+		return res
 	}
 	if s.usePush && res != Sat {
 		s.send("(pop 1)\n")
@@ -416,8 +497,13 @@ func (s *Solver) CheckModel(as []*Term, want []*Term) (Result, map[int]*big.Int)
 			sb.WriteString(Ref(t) + " ")
 		}
 		sb.WriteString("))\n")
+		disarm := s.watchdog()
 		s.send(sb.String())
 		sexp, err := s.readSexp()
+		if disarm() {
+			s.Unknowns++
+			return Unknown, nil
+		}
 		if err != nil || strings.HasPrefix(sexp, "(error") {
 			s.Errors = append(s.Errors, "get-value: "+sexp)
 			s.popIfNeeded()
